@@ -24,13 +24,13 @@ def context(tier, seed):
         pitches, maxlen = [0, 1, third], 4
     else:
         pitches, maxlen = [1, third], 6
-    syms = [f"{k}:{c}:{p}" for k in ("on", "off") for c in (0, 1) for p in pitches] + ["w1", "w2", "ts34", "ts44", "ksC", "ksG"]
+    syms = [f"{k}:{c}:{p}" for k in ("on", "off") for c in (0, 1) for p in pitches] + ["w1", "w2", "w0", "ts34", "ts44", "ksC", "ksG"]
     ctx = {"syms": syms, "maxlen": maxlen, "tier": tier,
            "bounds": {"alphabet": syms, "max_word_length": maxlen, "words": sum(len(syms) ** k for k in range(maxlen + 1))}}
     if tier != "quick":
         # the quick alphabet (3 pitches incl. pitch == channel number) is also swept completely to length 4
         ctx["syms_b"] = [f"{k}:{c}:{p}" for k in ("on", "off") for c in (0, 1) for p in [0, 1, third]] + \
-                        ["w1", "w2", "ts34", "ts44", "ksC", "ksG"]
+                        ["w1", "w2", "w0", "ts34", "ts44", "ksC", "ksG"]
     return ctx
 
 
